@@ -101,6 +101,19 @@ def value_st(draw, target, other_names, allow_poly=True):
 def case_st(draw):
     names = draw(gen.names_st(max_size=3))
     desc = draw(gen.poly_desc(names=names, max_terms=5, max_exp=3, max_ndim=3))
+    if draw(st.integers(0, 4)) == 0 and desc["terms"]:
+        # an array whose non-constant coefficients cancel ACROSS the elements (sum to zero per term):
+        # it is not constant, although every per-term total is zero
+        shape = draw(st.sampled_from([(2,), (3,), (2, 2)]))
+        size = gen.size_of(shape)
+        desc["shape"] = list(shape)
+        for t in desc["terms"]:
+            c = draw(st.sampled_from([1, 2, -3, 4]))
+            vals = [c, -c] + [0] * (size - 2)
+            if desc["kind"] == "c":
+                vals = [[v, 0] for v in vals]
+            t[1] = draw(st.permutations(vals))
+        desc["retain"] = False
     target = draw(st.sampled_from(ARG_SHAPES))
     D = len(names)
     npos = draw(st.integers(0, D))
